@@ -1223,8 +1223,12 @@ class PrevProcCloser(threading.Thread):
                 # GNU Parallel, which has a long startup time.
                 pass
             elif pipeline._prev_procs_done():
-                pipeline._close_prev_procs()
-                proc.prevs_are_closed = True
+                # _prev_procs_done() has closed the write ends, so the last
+                # proc sees EOF.  The read end of the last connecting pipe is
+                # its stdin and it is still running: closing it here makes a
+                # callable alias that is still reading fail with EBADF and
+                # lose the rest of its input.  CommandPipeline._end() closes
+                # the remaining handles once the last proc has finished.
                 break
             if not check_prev_done:
                 # if we are piping...
